@@ -47,6 +47,7 @@ PROPS["C02"] = {
             "TestC02Invalid": T(12000, 200000, env=_C02_ENV),
             "TestC02KeyGen": T(3200, 32000, shards={"quick": 2, "thorough": 8}, env=_C02_ENV),
             "TestC02NilEntropy": LIST(),
+            "TestC02Forms": LIST(),
         },
     }],
 }
